@@ -80,7 +80,7 @@ class T:
         self.name, self.spec, self.working_dir = name, spec, wd
 
 
-def client(port, timeout=3.0):
+def client(port, timeout=15.0):
     from gwf.backends.local import Client
 
     s = socket.create_connection(("127.0.0.1", port), timeout=timeout)
@@ -98,7 +98,7 @@ def run_sequence(pool, seq, ending, n):
         b = h.submit(T(f"b{n}", "true", wd), deps=[a])
     except Exception as e:
         return [f"healthy client H could not submit: {type(e).__name__}: {e}"]
-    m = socket.create_connection(("127.0.0.1", pool.port), timeout=3)
+    m = socket.create_connection(("127.0.0.1", pool.port), timeout=15)
     try:
         for label in seq:
             for chunk in M_BYTES[label]:
@@ -126,7 +126,7 @@ def run_sequence(pool, seq, ending, n):
     t0 = time.time()
     final = ("COMPLETED", "FAILED", "CANCELLED", "KILLED")
     st = {}
-    while time.time() - t0 < 8:
+    while time.time() - t0 < 25:
         try:
             st = {k: v.name for k, v in nn.status().items()}
         except Exception as e:
@@ -140,7 +140,7 @@ def run_sequence(pool, seq, ending, n):
             problems.append(f"task {tid} is {st.get(str(tid))}, expected {want}")
     stuck = {k: v for k, v in st.items() if v not in final}
     if stuck:
-        problems.append(f"accepted tasks not final after 8 s: {stuck}")
+        problems.append(f"accepted tasks not final after 25 s: {stuck}")
     for cl in (h, nn):
         try:
             cl.close()
